@@ -600,13 +600,21 @@ func ruleRefundFormula(c *Ctx, r *Report, rule string) {
 		v := resolveSpill(ret.Results[0])
 		okk := false
 		if ex, ok := v.(*ssa.Extract); ok && ex.Index == 0 {
-			if call, ok := ex.Tuple.(*ssa.Call); ok && shortCallee(call.Common()) == "Convert" {
+			cvf := c.fn("conversions.Convert")
+			isConvert := func(cc *ssa.CallCommon) bool {
+				if shortCallee(cc) == "Convert" {
+					return true
+				}
+				sc := cc.StaticCallee() // the conversion proper, split off from Convert
+				return sc != nil && isNewHelper(sc) && c.inFamily(sc, cvf)
+			}
+			if call, ok := ex.Tuple.(*ssa.Call); ok && isConvert(call.Common()) {
 				// the amount converted back is a difference involving the yield parameter and an earlier Convert
 				amt := call.Call.Args[1]
 				hasSub := sliceHas(amt, func(x ssa.Value) bool { b, ok := x.(*ssa.BinOp); return ok && b.Op == token.SUB })
 				hasFirst := sliceHas(amt, func(x ssa.Value) bool {
 					c2, ok := x.(*ssa.Call)
-					return ok && c2 != call && shortCallee(c2.Common()) == "Convert"
+					return ok && c2 != call && isConvert(c2.Common())
 				})
 				okk = hasSub && hasFirst
 			}
